@@ -1126,3 +1126,7 @@ mod tests {
         )
     }
 }
+
+#[cfg(kani)]
+#[path = "/verif/harness/static_db.rs"]
+mod verif_harness;
